@@ -2,6 +2,7 @@ package props
 
 import (
 	"fmt"
+	"math/big"
 	"sort"
 	"strings"
 	"time"
@@ -90,6 +91,22 @@ func runC06(c *fw.Ctx) {
 	o.Beacon = beacontypes.NewParams(fee(), fee(), fee(), bd, 3, 40)
 	if r.Chance(40) { // equal fees across the modules
 		o.Beacon.FeeRegister, o.Beacon.FeeRecord, o.Beacon.FeePurchaseStorage = o.Wrk.FeeRegister, o.Wrk.FeeRecord, o.Wrk.FeePurchaseStorage
+	}
+	hugeFees := r.Chance(12)
+	if hugeFees {
+		// per-slot fees of an 18-decimal fee denomination times large slot counts: products beyond 2^63
+		// and 2^64 (the owners hold 10^63 of that denomination, so the exact fee is affordable)
+		wd, bd = lab.DenomBig, lab.DenomBig
+		big := func() uint64 { return r.PickU64([]uint64{1 << 45, 1 << 50, 1 << 58, 1<<45 + 1}) }
+		o.Wrk = wrkchaintypes.NewParams(fee(), fee(), big(), wd, 3, 1<<20+7)
+		o.Beacon = beacontypes.NewParams(fee(), fee(), big(), bd, 3, 1<<20+7)
+		c.Count("huge_fee_parameter_sets", 1)
+	}
+	slots := func(lo, hi int) uint64 {
+		if hugeFees && r.Chance(50) {
+			return r.PickU64([]uint64{1<<19 + 1, 1 << 19, 1<<18 + 3, 1 << 14, 1<<6 + 1})
+		}
+		return uint64(r.Range(lo, hi))
 	}
 	o.Ent = enttypes.Params{EntSigners: lab.NewAcct(0).Addr.String(), Denom: lab.Denom, MinAccepts: 1, DecisionTimeLimit: 1000}
 	o.Whitelist = []int{1, 2}
@@ -263,7 +280,7 @@ func runC06(c *fw.Ctx) {
 					msgs = append(msgs, &wrkchaintypes.MsgRecordWrkChainBlock{WrkchainId: w.WrkchainId, Height: h, BlockHash: g.hash(64), Owner: owner.Addr.String()})
 					shape = append(shape, "Wrec")
 				} else {
-					msgs = append(msgs, &wrkchaintypes.MsgPurchaseWrkChainStateStorage{WrkchainId: w.WrkchainId, Number: uint64(r.Range(1, 3)), Owner: owner.Addr.String()})
+					msgs = append(msgs, &wrkchaintypes.MsgPurchaseWrkChainStateStorage{WrkchainId: w.WrkchainId, Number: slots(1, 3), Owner: owner.Addr.String()})
 					shape = append(shape, "Wbuy")
 				}
 			case 3:
@@ -280,7 +297,7 @@ func runC06(c *fw.Ctx) {
 					msgs = append(msgs, &beacontypes.MsgRecordBeaconTimestamp{BeaconId: b.BeaconId, Hash: g.hash(64), SubmitTime: uint64(L.Time.Unix()), Owner: owner.Addr.String()})
 					shape = append(shape, "Brec")
 				} else {
-					msgs = append(msgs, &beacontypes.MsgPurchaseBeaconStateStorage{BeaconId: b.BeaconId, Number: uint64(r.Range(1, 3)), Owner: owner.Addr.String()})
+					msgs = append(msgs, &beacontypes.MsgPurchaseBeaconStateStorage{BeaconId: b.BeaconId, Number: slots(1, 3), Owner: owner.Addr.String()})
 					shape = append(shape, "Bbuy")
 				}
 			default:
@@ -292,10 +309,10 @@ func runC06(c *fw.Ctx) {
 		if r.Chance(30) && len(msgs) < 4 {
 			switch x := msgs[0].(type) {
 			case *wrkchaintypes.MsgPurchaseWrkChainStateStorage:
-				msgs = append(msgs, &wrkchaintypes.MsgPurchaseWrkChainStateStorage{WrkchainId: x.WrkchainId, Number: uint64(r.Range(1, 4)), Owner: x.Owner})
+				msgs = append(msgs, &wrkchaintypes.MsgPurchaseWrkChainStateStorage{WrkchainId: x.WrkchainId, Number: slots(1, 4), Owner: x.Owner})
 				shape = append(shape, "Wbuy")
 			case *beacontypes.MsgPurchaseBeaconStateStorage:
-				msgs = append(msgs, &beacontypes.MsgPurchaseBeaconStateStorage{BeaconId: x.BeaconId, Number: uint64(r.Range(1, 4)), Owner: x.Owner})
+				msgs = append(msgs, &beacontypes.MsgPurchaseBeaconStateStorage{BeaconId: x.BeaconId, Number: slots(1, 4), Owner: x.Owner})
 				shape = append(shape, "Bbuy")
 			case *beacontypes.MsgRecordBeaconTimestamp:
 				msgs = append(msgs, &beacontypes.MsgRecordBeaconTimestamp{BeaconId: x.BeaconId, Hash: g.hash(64), SubmitTime: x.SubmitTime + 1, Owner: x.Owner})
@@ -321,14 +338,14 @@ func runC06(c *fw.Ctx) {
 			if len(ws) >= 2 && (len(bs) < 2 || r.Bool()) {
 				msgs, shape = nil, nil
 				for _, k := range pat {
-					msgs = append(msgs, &wrkchaintypes.MsgPurchaseWrkChainStateStorage{WrkchainId: ws[k], Number: uint64(r.Range(1, 5)), Owner: owner.Addr.String()})
+					msgs = append(msgs, &wrkchaintypes.MsgPurchaseWrkChainStateStorage{WrkchainId: ws[k], Number: slots(1, 5), Owner: owner.Addr.String()})
 					shape = append(shape, "Wbuy")
 				}
 				shape = append(shape, "interleaved")
 			} else if len(bs) >= 2 {
 				msgs, shape = nil, nil
 				for _, k := range pat {
-					msgs = append(msgs, &beacontypes.MsgPurchaseBeaconStateStorage{BeaconId: bs[k], Number: uint64(r.Range(1, 5)), Owner: owner.Addr.String()})
+					msgs = append(msgs, &beacontypes.MsgPurchaseBeaconStateStorage{BeaconId: bs[k], Number: slots(1, 5), Owner: owner.Addr.String()})
 					shape = append(shape, "Bbuy")
 				}
 				shape = append(shape, "interleaved")
@@ -445,6 +462,19 @@ func runC06(c *fw.Ctx) {
 			offered, rel = want.Add(sdk.NewInt64Coin(lab.DenomBig, 1)), "exact"
 		default:
 			offered, rel = sdk.NewCoins(sdk.NewInt64Coin(lab.DenomBig, 5)), "missing"
+		}
+		// what fixed-width arithmetic would make of the exact fee: the sum modulo 2^64 / 2^63
+		for _, cn := range want {
+			if cn.Amount.BigInt().BitLen() > 63 && r.Chance(60) {
+				mod := new(big.Int).Lsh(big.NewInt(1), uint([]int{64, 63}[r.Intn(2)]))
+				w := new(big.Int).Mod(cn.Amount.BigInt(), mod)
+				offered = sdk.NewCoins(sdk.NewCoin(cn.Denom, math.NewIntFromBigInt(w)))
+				rel = "wrapped-fee"
+				if offered.IsEqual(want) {
+					rel = "exact"
+				}
+				break
+			}
 		}
 		if phantom != nil && r.Chance(30) { // what the operations would cost under the discarded parameters
 			offered, _, _ = phantom.expected(leaves)
